@@ -452,3 +452,42 @@ func normaliseConstContains(pkgs []*packages.Package) int {
 	}
 	return n
 }
+
+// normaliseCompare rewrites `cmp.Compare(a, b) OP 0` (and strings.Compare) into
+// `a OP b`: the three-way comparison against zero is the plain comparison.
+// Run after the temporaries were substituted, so `c := cmp.Compare(a, b)`
+// followed by `c < 0` is covered too.
+func normaliseCompare(pkgs []*packages.Package) int {
+	n := 0
+	for _, pkg := range pkgs {
+		info := pkg.TypesInfo
+		for _, f := range pkg.Syntax {
+			ast.Inspect(f, func(nd ast.Node) bool {
+				be, ok := nd.(*ast.BinaryExpr)
+				if !ok {
+					return true
+				}
+				switch be.Op {
+				case token.LSS, token.LEQ, token.GTR, token.GEQ, token.EQL, token.NEQ:
+				default:
+					return true
+				}
+				call, isCall := ast.Unparen(be.X).(*ast.CallExpr)
+				if !isCall || len(call.Args) != 2 {
+					return true
+				}
+				fn := Callee(info, call)
+				if fn == nil || fn.Pkg() == nil || (fn.Pkg().Path() != "cmp" && fn.Pkg().Path() != "strings") || fn.Name() != "Compare" {
+					return true
+				}
+				if tv, has := info.Types[be.Y]; !has || tv.Value == nil || tv.Value.String() != "0" {
+					return true
+				}
+				be.X, be.Y = call.Args[0], call.Args[1]
+				n++
+				return true
+			})
+		}
+	}
+	return n
+}
